@@ -1,4 +1,5 @@
 import XlModel.Decode
+import XlModel.Lemmas.DecodeRows
 import XlModel.Ref
 import XlModel.RefMulti
 import XlModel.Drv.Util
@@ -170,9 +171,14 @@ def stepSites (w : List String) : Option String :=
           | some r =>
             (cs.foldlM (fun (a : List Tok) (c : String) => match c.splitOn ":" with
               | [k, v] =>
-                if k = "B" then some (a ++ [Tok.cell none true (v = "v")])
-                else if k = "-" then some (a ++ [Tok.cell none false (v = "v")])
-                else (k.toInt?).map fun n => a ++ [Tok.cell (some n) false (v = "v")]
+                -- the tokens come from the raw `r` texts the harness writes (`cellTok`: C20's parser decides)
+                if k = "B" then some (a ++ [cellTok "1A".toList (v = "v")])
+                else if k = "-" then some (a ++ [cellTok [] (v = "v")])
+                else (k.toInt?).map fun n =>
+                  let rr : Int := if r < 1 || r > (Facts.TotalRows : Int) then 1 else r
+                  match Ref.coordinatesToCellName n rr false with
+                  | .ok name => a ++ [cellTok name (v = "v")]
+                  | .error _ => a ++ [Tok.cell (some n) false (v = "v")]
               | _ => none) (acc ++ [Tok.row r])).map (· ++ [Tok.other])) []
     match toks with
     | some ts =>
